@@ -285,6 +285,10 @@ def run (c : Case) : CaseOut := Id.run do
       if f.when.isSome && !tags.contains "when" then tags := "when" :: tags
       if f.part.isSome && !tags.contains "partitioned" then tags := "partitioned" :: tags
       if f.wrap != .none && !tags.contains "wrapper" then tags := "wrapper" :: tags
-    return { obs := obs, spec := spec, tags := tags }
+    -- cfg `colstyle qualw`: the stream has an alias and wrapper / WHEN columns are written `s.col`: the engine reads such a
+    -- column inside an expression as a nested path and gets NULL (recorded finding; the model has no aliases)
+    let qualw := c.cfg.any fun l => l == ["colstyle", "qualw"]
+    return { obs := obs, spec := spec, tags := (if qualw then "colstyle-qualw" :: tags else tags),
+             cls := if qualw then "qualified-stream-column-in-expression" else "none" }
 
 end DrvC14
